@@ -222,4 +222,108 @@ theorem expand_spec (alloc : Alloc) (a : Al) (s : Seq) (h : Rep a s) (max : Nat)
       · rw [if_neg h3]
         exact ⟨a, -1, rfl, Or.inr ⟨rfl, rfl, by omega, Or.inr (Or.inr ⟨_, by simpa using h3⟩)⟩⟩
 
+/-! ### the reference binary search (glibc's loop) -/
+
+theorem bsearchLoop_some (le : Elem → Elem → Bool) (k : Elem) (s : Seq) (fuel : Nat) :
+    ∀ l u i, Seq.bsearchLoop le k s fuel l u = some i →
+      ∃ e, s[i]? = some e ∧ Seq.equiv le k e = true := by
+  induction fuel with
+  | zero => intro l u i h; simp [Seq.bsearchLoop] at h
+  | succ f ih =>
+    intro l u i h
+    unfold Seq.bsearchLoop at h
+    by_cases hlu : l < u
+    · rw [if_pos hlu] at h
+      simp only [] at h
+      cases hs : s[(l + u) / 2]? with
+      | none => rw [hs] at h; simp at h
+      | some e =>
+        rw [hs] at h
+        simp only [] at h
+        by_cases he : (le k e && le e k) = true
+        · rw [if_pos he] at h
+          cases h
+          exact ⟨e, hs, he⟩
+        · rw [if_neg he] at h
+          by_cases h2 : le k e = true
+          · rw [if_pos h2] at h; exact ih _ _ _ h
+          · rw [if_neg h2] at h; exact ih _ _ _ h
+    · rw [if_neg hlu] at h; simp at h
+
+theorem bsearchLoop_none (le : Elem → Elem → Bool) (hle : Seq.TotalPreorder le) (k : Elem) (s : Seq)
+    (hs : Seq.Sorted le s) (fuel : Nat) :
+    ∀ l u, u ≤ s.length → u - l < fuel →
+      (∀ j e, j < l → s[j]? = some e → le k e = false) →
+      (∀ j e, u ≤ j → s[j]? = some e → le e k = false) →
+      Seq.bsearchLoop le k s fuel l u = none → ∀ e ∈ s, Seq.equiv le k e = false := by
+  have hpw := List.pairwise_iff_getElem.mp hs
+  induction fuel with
+  | zero => intro l u _ hf; omega
+  | succ f ih =>
+    intro l u hu hf hlo hhi h e he
+    unfold Seq.bsearchLoop at h
+    by_cases hlu : l < u
+    · rw [if_pos hlu] at h
+      simp only [] at h
+      have hidx : (l + u) / 2 < s.length := by omega
+      rw [List.getElem?_eq_getElem hidx] at h
+      simp only [] at h
+      by_cases heq : (le k s[(l + u) / 2] && le s[(l + u) / 2] k) = true
+      · rw [if_pos heq] at h; simp at h
+      · rw [if_neg heq] at h
+        by_cases h2 : le k s[(l + u) / 2] = true
+        · rw [if_pos h2] at h
+          have h3 : le s[(l + u) / 2] k = false := by
+            cases hc : le s[(l + u) / 2] k
+            · rfl
+            · rw [h2, hc] at heq; simp at heq
+          refine ih l ((l + u) / 2) (by omega) (by omega) hlo ?_ h e he
+          intro j e' hj hje
+          have hjl : j < s.length := by
+            cases hjl : decide (j < s.length) with
+            | true => simpa using hjl
+            | false => rw [List.getElem?_eq_none (by simpa using hjl)] at hje; simp at hje
+          rw [List.getElem?_eq_getElem hjl] at hje
+          cases hje
+          by_cases hje2 : j = (l + u) / 2
+          · subst hje2; exact h3
+          · have := hpw ((l + u) / 2) j hidx hjl (by omega)
+            cases hc : le s[j] k
+            · rfl
+            · have := hle.trans _ _ _ this hc
+              rw [this] at h3; simp at h3
+        · rw [if_neg h2] at h
+          have h2' : le k s[(l + u) / 2] = false := by simpa using h2
+          refine ih ((l + u) / 2 + 1) u hu (by omega) ?_ hhi h e he
+          intro j e' hj hje
+          have hjl : j < s.length := by omega
+          rw [List.getElem?_eq_getElem hjl] at hje
+          cases hje
+          by_cases hje2 : j = (l + u) / 2
+          · subst hje2; exact h2'
+          · have := hpw j ((l + u) / 2) hjl hidx (by omega)
+            cases hc : le k s[j]
+            · rfl
+            · have := hle.trans _ _ _ hc this
+              rw [this] at h2'; simp at h2'
+    · -- interval empty: every position is below l or at/above u
+      obtain ⟨j, hj, hje⟩ := List.getElem_of_mem he
+      unfold Seq.equiv
+      by_cases hjl : j < l
+      · rw [hlo j e hjl (by rw [List.getElem?_eq_getElem hj, hje])]; simp
+      · rw [hhi j e (by omega) (by rw [List.getElem?_eq_getElem hj, hje])]; simp
+
+/-! ### counting elements (conservation) -/
+
+theorem nonNull_append (a b : List Elem) : Seq.nonNull (a ++ b) = Seq.nonNull a ++ Seq.nonNull b := by
+  simp [Seq.nonNull, List.filterMap_append]
+
+theorem nonNull_replicate_none (n : Nat) : Seq.nonNull (List.replicate n (none : Elem)) = [] := by
+  induction n with
+  | zero => rfl
+  | succ n ih => simp [Seq.nonNull, List.replicate_succ]
+
+theorem nonNull_singleton (v : Elem) : Seq.nonNull [v] = releaseOf v := by
+  cases v <;> rfl
+
 end JsonC.Arraylist
